@@ -103,6 +103,10 @@ func newParserExec(cfg PCfg) (*parserExec, error) {
 				x.report("C16", "NewParser panicked: %v", r)
 			}
 		}()
+		if cfg.Kind == "BUF" {
+			p, err = newBufParser(cfg)
+			return
+		}
 		p, err = cfg.LZ().NewParser()
 	}()
 	if err != nil {
@@ -208,6 +212,8 @@ func (x *parserExec) step(op POp) {
 		x.doReadAt(op)
 	case "byteat":
 		x.doByteAt(op)
+	case "peekat":
+		x.doPeekAt(op)
 	default:
 		panic("unknown op " + op.Op)
 	}
@@ -698,5 +704,85 @@ func (x *parserExec) checkMaximal(seqs []lz.Seq, n int) {
 			}
 		}
 		p = e
+	}
+}
+
+// bufParser drives lz.ParserBuffer directly, the way a parser implemented
+// outside of the module would: it embeds the buffer and moves W itself. Parse
+// emits the next min(BlockSize, unparsed) bytes as literals.
+type bufParser struct {
+	lz.ParserBuffer
+}
+
+func newBufParser(cfg PCfg) (*bufParser, error) {
+	b := new(bufParser)
+	err := b.Init(lz.BufConfig{ShrinkSize: cfg.ShrinkSize, BufferSize: cfg.BufferSize,
+		WindowSize: cfg.WindowSize, BlockSize: cfg.BlockSize})
+	if err != nil {
+		return nil, err
+	}
+	return b, nil
+}
+
+func (b *bufParser) ParserConfig() lz.ParserConfig { return nil }
+
+func (b *bufParser) Parse(blk *lz.Block, flags int) (int, error) {
+	n := len(b.Data) - b.W
+	if n > b.BlockSize {
+		n = b.BlockSize
+	}
+	if blk != nil {
+		blk.Sequences = blk.Sequences[:0]
+		blk.Literals = blk.Literals[:0]
+	}
+	if n == 0 {
+		return 0, lz.ErrEmptyBuffer
+	}
+	if blk != nil {
+		blk.Literals = append(blk.Literals, b.Data[b.W:b.W+n]...)
+	}
+	b.W += n
+	return n, nil
+}
+
+func (x *parserExec) doPeekAt(op POp) {
+	pk, ok := x.p.(interface {
+		PeekAt(n int, off int64) ([]byte, error)
+	})
+	if !ok || op.Len < 0 {
+		return
+	}
+	var q []byte
+	var err error
+	if x.call("PeekAt", []string{"C15", "C16"}, func() { q, err = pk.PeekAt(op.Len, op.Off) }) {
+		return
+	}
+	i := op.Off - int64(x.off)
+	if !(0 <= i && i < int64(x.buffered())) {
+		if len(q) != 0 || err != lz.ErrOutOfBuffer {
+			x.report("C15", "PeekAt(%d, off %d) with retained range [%d,%d) = (%d bytes, %s); want (none, ErrOutOfBuffer)",
+				op.Len, op.Off, x.off, len(x.fed), len(q), errName(err))
+		}
+		return
+	}
+	avail := x.buffered() - int(i)
+	var wantErr error
+	if avail < op.Len {
+		wantErr = lz.ErrEndOfBuffer
+	}
+	if err != wantErr {
+		x.report("C15", "PeekAt(%d, off %d) with retained range [%d,%d): err = %s; want %s",
+			op.Len, op.Off, x.off, len(x.fed), errName(err), errName(wantErr))
+	}
+	// the slice returned starts at the offset and must show stream bytes
+	m := minInt(len(q), avail)
+	if len(q) < minInt(op.Len, avail) {
+		x.report("C15", "PeekAt(%d, off %d) returned %d bytes although %d are retained from there", op.Len, op.Off, len(q), avail)
+	}
+	if !bytesEqual(q[:m], x.fed[op.Off:int(op.Off)+m]) {
+		x.report("C15", "PeekAt(%d, off %d) returned %q; the stream has %q there", op.Len, op.Off, q[:m], x.fed[op.Off:int(op.Off)+m])
+	}
+	if x.shrinkPos > 0 {
+		x.readsAfterShrink++
 	}
 }
